@@ -397,14 +397,26 @@ class CallMixin(object):
     line = getattr(node, 'lineno', '?')
     self.contracts_used.add(spec.name)
     fid, scx = self.spec_frame_ctx(st, spec, fn, params)
-    # preconditions
+    # preconditions (clauses over the unit's ghost captures are verification scaffolding of the
+    # callee's own unit -- symbolic names for the content of its stream parameters -- not caller duties)
+    capnames = set(spec.captures) if not isinstance(fn.frame_id, list) or True else set()
+    def mentions_capture(text):
+      return bool(capnames) and any(isinstance(n, ast.Name) and n.id in capnames for n in ast.walk(self.parse_spec(text)))
     for n, r in enumerate(spec.requires):
+      if mentions_capture(r) and not fn.frame_id:
+        continue
       g = self.spec_bool(st, scx, r)
       self.oblige(st, 'pre[%s#%d]@%s' % (spec.name, n, line), g, node, 'precondition %r of %s' % (r, spec.name))
     if spec.may_yield and not self.spec_depth:
       class _Y(object):
         name = spec.name
-      self.at_yield(st, cx, node, _Y)
+      # may_yield may be a condition (over the pre-state): the callee only blocks when it holds
+      skip = False
+      if isinstance(spec.may_yield, str):
+        cond = self.spec_bool(st, scx, spec.may_yield)
+        skip = self.entails(st, z3.Not(cond))
+      if not skip:
+        self.at_yield(st, cx, node, _Y)
     snap = dict(st.heap)
     snap['$alloc'] = st.alloc
     outs = []
@@ -432,6 +444,8 @@ class CallMixin(object):
     try:
       for e in spec.ensures:
         t = self.parse_spec(e)
+        if mentions_capture(e) and not fn.frame_id:
+          continue
         if (spec.returns is not None and spec.returns.k == 'bytes' and isinstance(t, ast.Call) and isinstance(t.func, ast.Name)
             and t.func.id == 'beq' and isinstance(t.args[0], ast.Name) and t.args[0].id == 'result'):
           # a byte-string result defined by its contract: take the defining expression as the value
@@ -832,6 +846,13 @@ class CallMixin(object):
       parts = []
       for key, sorts in self.expand_pattern(args[0].py):
         cur = self.arr(st, key, sorts)
-        parts.append(cur == snap.get(key, cur))
+        old = snap.get(key)
+        if old is None:
+          # not touched before the snapshot was taken: it still had its entry-state value
+          so = sorts[-1]
+          for d in reversed(sorts[:-1]):
+            so = z3.ArraySort(d, so)
+          old = z3.Const('H_' + key.replace(' ', ''), so)
+        parts.append(cur == old)
       return V(BOOL, z3.And(*parts) if parts else z3.BoolVal(True))
     raise Unsupported('spec builtin %s' % name)
